@@ -2,7 +2,7 @@
 principle, size dispatch, compare-exchange decision table."""
 import re
 
-from engine import ir, dtable
+from engine import ir, dtable, match
 from engine.ir import kids, const_int, strip_casts
 
 FAMILIES = ["best", "bose_nelson", "bose_nelson_parameter"]
@@ -247,55 +247,115 @@ def check_dispatcher(ck, tu, fam, fn, nets_seen):
 
 
 def check_cswap(ck, tu):
+    """the compare-exchange functor is evaluated on two labelled elements L, R for the three consistent outcomes of
+    (cmp(L,R), cmp(R,L)): the slots must afterwards hold a permutation of {L, R} with not cmp(right, left).  Understood:
+    if / ?: on comparator calls, std::swap, locals, assignments, std::min / std::max with the functor's comparator"""
     fns = tu.some(qname=NS + "CS_IfSwap::operator()")
     for fn in fns:
         l, r = fn.params[0]["did"], fn.params[1]["did"]
+        bad = None
+        for v in ({("L", "R"): True, ("R", "L"): False}, {("L", "R"): False, ("R", "L"): True}, {("L", "R"): False, ("R", "L"): False}):
+            env = {l: "L", r: "R"}
 
-        def atomize(n, run):
-            if "callee" in n and n.get("op") == "()" and len(kids(n)) == 3:
-                obj = strip_casts(kids(n)[0])
-                if ir.is_this_member(obj):
-                    a, b = ir.ref_of(kids(n)[1]), ir.ref_of(kids(n)[2])
-                    if (a, b) == (r, l):
-                        return ("cmp(right,left)", False)
-                    if (a, b) == (l, r):
-                        return ("cmp(left,right)", False)
-            return None
-        leaves = dtable.explore(fn.body, atomize, fn)
+            def cmp(a, b, v=v):
+                return False if a == b else v[(a, b)]
 
-        def consistent(v):
-            return not (v.get("cmp(right,left)") and v.get("cmp(left,right)"))
-        atoms = ["cmp(left,right)", "cmp(right,left)"]
-        bad = False
-        for v, lf in dtable.table(leaves, consistent, atoms):
-            swaps = []
-            for ev in lf["events"]:
-                if ev[0] == "expr" and "callee" in ev[1] and ev[1]["callee"]["name"] in ("swap", "iter_swap"):
-                    args = [ir.ref_of(a) for a in kids(ev[1])]
-                    swaps.append(set(args) == {l, r})
-                elif ev[0] != "expr" or True:
-                    if ev[0] in ("loop",):
-                        raise dtable.Undecidable("%s: loop in compare-exchange functor" % fn.loc)
-            others = [ev for ev in lf["events"] if not (ev[0] == "expr" and "callee" in ev[1]
-                                                       and ev[1]["callee"]["name"] in ("swap", "iter_swap"))]
-            if others:
-                raise dtable.Undecidable("%s: compare-exchange functor has effects other than swap: %s"
-                                         % (fn.loc, dtable.describe(others[0][1]) if others[0][0] == "expr" else others[0][0]))
-            did_swap = len(swaps) % 2 == 1 and all(swaps)
-            if swaps and not all(swaps):
-                ck.violation("CSWAP-TABLE", fn.qname, "swap-args", "swap does not exchange (left,right)", fn.loc)
-                bad = True
+            def ev(e):
+                e = strip_casts(e)
+                d = ir.ref_of(e)
+                if d is not None:
+                    if d not in env:
+                        raise dtable.Undecidable("%s: unbound variable in the compare-exchange functor" % fn.nloc(e))
+                    return env[d]
+                if e["k"] == "ParenExpr":
+                    return ev(kids(e)[0])
+                if e["k"] == "ConditionalOperator":
+                    c, a, b = kids(e)
+                    return ev(a) if truth(c) else ev(b)
+                if "callee" in e and e["callee"]["name"] in ("min", "max") and len(kids(e)) in (2, 3):
+                    if len(kids(e)) == 2 or not ir.is_this_member(strip_casts(kids(e)[2])):
+                        raise Misuse("std::%s is called without the functor's comparator" % e["callee"]["name"], e)
+                    a, b = ev(kids(e)[0]), ev(kids(e)[1])
+                    if e["callee"]["name"] == "min":
+                        return b if cmp(b, a) else a
+                    return b if cmp(a, b) else a
+                if "callee" in e and e["callee"]["name"] == "move" and len(kids(e)) == 1:
+                    return ev(kids(e)[0])
+                if e["k"] in ("CXXConstructExpr",) and len(kids(e)) == 1:
+                    return ev(kids(e)[0])
+                raise dtable.Undecidable("%s: expression not understood in the compare-exchange functor: %s" % (fn.nloc(e), dtable.describe(e)))
+
+            def truth(c):
+                c = strip_casts(c)
+                if c["k"] == "ParenExpr":
+                    return truth(kids(c)[0])
+                if c["k"] == "UnaryOperator" and c.get("op") == "!":
+                    return not truth(kids(c)[0])
+                if c["k"] == "BinaryOperator" and c.get("op") in ("&&", "||"):
+                    a = truth(kids(c)[0])
+                    if c["op"] == "&&":
+                        return a and truth(kids(c)[1])
+                    return a or truth(kids(c)[1])
+                if "callee" in c and c.get("op") == "()" and len(kids(c)) == 3 and ir.is_this_member(strip_casts(kids(c)[0])):
+                    return cmp(ev(kids(c)[1]), ev(kids(c)[2]))
+                raise dtable.Undecidable("%s: condition not understood in the compare-exchange functor: %s" % (fn.nloc(c), dtable.describe(c)))
+
+            def stmt(s_):
+                if s_ is None:
+                    return
+                k = s_["k"]
+                if k == "CompoundStmt":
+                    for c in kids(s_):
+                        stmt(c)
+                elif k == "IfStmt":
+                    c, t, e = kids(s_)
+                    stmt(t if truth(c) else e)
+                elif k == "DeclStmt":
+                    for d in kids(s_):
+                        if kids(d) and kids(d)[0] is not None:
+                            env[d["did"]] = ev(kids(d)[0])
+                elif k == "ReturnStmt":
+                    pass
+                else:
+                    e = strip_casts(s_)
+                    if "callee" in e and e["callee"]["name"] in ("swap", "iter_swap") and len(kids(e)) == 2:
+                        a, b = ir.ref_of(kids(e)[0]), ir.ref_of(kids(e)[1])
+                        if a is None or b is None:
+                            raise dtable.Undecidable("%s: swap of something else than two variables" % fn.nloc(e))
+                        env[a], env[b] = env[b], env[a]
+                        return
+                    b = match.binop(e, ("=",))
+                    if b and ir.ref_of(b[1]) is not None:
+                        env[ir.ref_of(b[1])] = ev(b[2])
+                        return
+                    raise dtable.Undecidable("%s: statement not understood in the compare-exchange functor: %s" % (fn.nloc(e), dtable.describe(e)))
+            try:
+                stmt(fn.body)
+            except Misuse as m:
+                bad = (v, str(m))
                 break
-            if v["cmp(right,left)"] and not did_swap:
-                ck.violation("CSWAP-TABLE", fn.qname, "row:" + dtable.fmt_val(v),
-                             "right < left but the pair is not exchanged", fn.loc)
-                bad = True
-            if v["cmp(left,right)"] and did_swap:
-                ck.violation("CSWAP-TABLE", fn.qname, "row:" + dtable.fmt_val(v),
-                             "left < right but the pair is exchanged", fn.loc)
-                bad = True
-        if not bad:
-            ck.ok("CSWAP-TABLE", fn.full, "3 consistent rows over atoms cmp(l,r), cmp(r,l): exchange iff right<left (free on ties)")
+            left, right = env[l], env[r]
+            if sorted((left, right)) != ["L", "R"]:
+                bad = (v, "both slots hold element %s afterwards: one of two elements that compare %s is lost and the other duplicated (the output is "
+                          "no longer a permutation of the input)" % (left, "equivalent" if not v[("L", "R")] and not v[("R", "L")] else "unequal"))
+                break
+            if cmp(right, left):
+                bad = (v, "afterwards right < left still holds: the pair is not put in order")
+                break
+        if bad:
+            v, msg = bad
+            ck.violation("CSWAP-TABLE", fn.qname, "row:cmp(L,R)=%s,cmp(R,L)=%s" % (v[("L", "R")], v[("R", "L")]),
+                         "with cmp(left,right)=%s and cmp(right,left)=%s: %s" % (v[("L", "R")], v[("R", "L")], msg), fn.loc)
+        else:
+            ck.ok("CSWAP-TABLE", fn.full, "3 consistent outcomes of (cmp(l,r), cmp(r,l)): the slots hold a permutation of the two elements, in order")
+
+
+class Misuse(Exception):
+    def __init__(self, msg, node):
+        Exception.__init__(self, msg)
+        self.node = node
+
+
 
 
 def run(ck):
